@@ -180,7 +180,8 @@ impl EventGen for ReuseElement {
         let mut pos = Position::from(&reuse_element);
         // a reuse element which doesn't place its instance leaves the target's own
         // geometry (anchors such as cx / cy, dw / dh, end points) as written
-        let is_placed = pos.is_positioned();
+        // (a connector is placed by its ends alone)
+        let is_placed = pos.is_positioned() && !instance_element.is_connector();
         // (placing an instance writes its size out: dw / dh are part of that size)
         let instance_size = if is_placed && instance_size.is_some() {
             instance_element.resolve_size_delta();
